@@ -80,13 +80,48 @@ def parts_nonmain():
         'root': 'mine', 'variants': {'v0': []}}
 
 
-WORLDS = {'chain3': chain3, 'diamond': diamond, 'types': types_world, 'samehash': two_parameterless, 'usesns': uses_ns, 'twofiles': twofiles, 'partsnonmain': parts_nonmain}
+def empties():
+    """legitimately EMPTY stored results (zero generated items, zero arrays, an empty directory)"""
+    return {'name': 'empties', 'tasks': {
+        'G': {'params': [P('pg', default=0)], 'inputs': [], 'data': 'generator0'},
+        'L': {'params': [], 'inputs': [bc('G')], 'data': 'lon0'},
+        'D': {'params': [], 'inputs': [bc('L')], 'data': 'dir0'},
+        'E': {'params': [], 'inputs': [bc('D')], 'data': 'json'}},
+        'configs': {'root': {'medium': 'json', 'tasks': ['G', 'L', 'D', 'E'], 'values': {}}}, 'root': 'root', 'variants': {'v0': []}}
+
+
+def resumable():
+    """a resumable (ContinuesData) task; the target may already hold the work directory of an interrupted run"""
+    return {'name': 'resumable', 'tasks': {
+        'A': {'params': [P('pa', default=0)], 'inputs': [], 'data': 'json'},
+        'R': {'params': [], 'inputs': [bc('A')], 'data': 'continues'}},
+        'configs': {'root': {'medium': 'json', 'tasks': ['A', 'R'], 'values': {}}}, 'root': 'root', 'variants': {'v0': []}}
+
+
+WORLDS = {'empties': empties, 'resumable': resumable, 'chain3': chain3, 'diamond': diamond, 'types': types_world, 'samehash': two_parameterless, 'usesns': uses_ns, 'twofiles': twofiles, 'partsnonmain': parts_nonmain}
 
 
 def listing(root):
     if not os.path.exists(root):
         return []
     return fsops.tree_digest(root, listing=True)
+
+
+def content_listing(root):
+    """directory content as a reader sees it: symlinks are followed (a migrated copy may hold the linked content itself)"""
+    import hashlib
+    out = []
+    for r, ds, fs in os.walk(root, followlinks=True):
+        ds.sort()
+        rel = os.path.relpath(r, root)
+        out.append((rel + '/', 'd'))
+        for f in sorted(fs):
+            p_ = os.path.join(r, f)
+            try:
+                out.append((os.path.join(rel, f), hashlib.sha1(open(p_, 'rb').read()).hexdigest()[:12]))
+            except OSError as e:
+                out.append((os.path.join(rel, f), f'unreadable:{type(e).__name__}'))
+    return out
 
 
 def classify_source_change(before, after):
@@ -145,6 +180,26 @@ def run_case(wname, present, seq):
                     shutil.rmtree(os.path.join(r_, d_))
                     ds.remove(d_)
         snap = listing(src)
+        if wname == 'resumable':
+            # somebody already tried the parameter-mode chain on the target and the resumable task died part way
+            w.rt.faults['R'] = ['raise_partial']
+            try:
+                _ = w.chain('v0', base_dir=tgt)['r'].value
+            except Exception:  # noqa
+                pass
+            w.rt.faults.clear()
+            from tcv.histories import Exec
+            Exec._detach_handlers(None)
+        pre_target = set()
+        if os.path.exists(tgt):
+            chp = w.chain('v0', base_dir=tgt)
+            pre_target = {fn for fn in names if m.tasks[fn].decl.get('data', 'json') != 'inmemory' and chp.tasks[fn].has_data}
+        src_results = {}
+        for fn in names:
+            rel = m.relpath(fn, name_mode_config=m.config_name(m.tasks[fn].mount[1]))
+            p_ = os.path.join(src, rel)
+            if os.path.isdir(p_):
+                src_results[fn] = content_listing(p_)
         migrated = False
         tgt_after_real = None
         for i, dry in enumerate(seq):
@@ -178,9 +233,9 @@ def run_case(wname, present, seq):
             has = {fn for fn in names if m.tasks[fn].decl.get('data', 'json') != 'inmemory' and ch2.tasks[fn].has_data}
             # compared per computation: names that denote one shared computation in parameter mode have one location
             comp = lambda s_: {(m.tasks[fn].local, m.key(fn)) for fn in s_}  # noqa
-            if comp(has) != comp(had):
+            if comp(has) != comp(had | pre_target):
                 out.append(('target does not hold results for exactly the tasks that had one', f'had {sorted(had)}, target has {sorted(has)}'))
-            for fn in sorted(had & has):
+            for fn in sorted((had - pre_target) & has):
                 kind = m.tasks[fn].decl.get('data', 'json')
                 mark = len(w.rt.log)
                 try:
@@ -188,8 +243,12 @@ def run_case(wname, present, seq):
                 except Exception as e:  # noqa
                     out.append(('migrated result cannot be loaded', f'{fn}: {type(e).__name__}: {str(e)[:200]}'))
                     continue
-                if p['term'] != m.term(fn):
+                if p['term'] != m.term(fn) and wname != 'empties':  # empty results carry no provenance term
                     out.append(('migrated value differs from the original', f'{fn}: {p["term"]} vs {m.term(fn)}'))
+                if fn in src_results:
+                    tl = content_listing(str(ch2.tasks[fn].data_path))
+                    if tl != src_results[fn]:
+                        out.append(('migrated directory result differs from the original directory', f'{fn}: {sorted(set(map(str, tl)) ^ set(map(str, src_results[fn])))[:6]}'))
                 if len(w.rt.log) != mark:
                     out.append(('migrated task was run again', f'{fn}: {[r[0] for r in w.rt.log[mark:]]}'))
         return out, case
@@ -221,7 +280,7 @@ def _job(items):
 def run(tier, seed):
     items = []
     seqs = [s for n in (1, 2, 3) for s in itertools.product((True, False), repeat=n)]
-    for wname in (['chain3', 'samehash', 'usesns', 'types', 'twofiles', 'partsnonmain'] if tier == 'quick' else list(WORLDS)):
+    for wname in (['chain3', 'samehash', 'usesns', 'types', 'twofiles', 'partsnonmain', 'empties', 'resumable'] if tier == 'quick' else list(WORLDS)):
         desc = WORLDS[wname]()
         n = len(refmodel.Model(worlds.apply_variant(desc, 'v0'), 'x').tasks)
         subsets = list(itertools.product((True, False), repeat=n))
